@@ -69,6 +69,9 @@ func verifMsgpMakeIndex(p *msgpmon.Package) *verifMsgpIndex {
 	}
 	for i := range p.Bounds {
 		b := &p.Bounds[i]
+		if b.Eval != nil {
+			b.Bounds, b.MaxTotal = b.Eval()
+		}
 		if b.Named != "" {
 			ix.named[b.Named] = b
 		} else {
